@@ -248,6 +248,9 @@ func init() {
 		},
 		"(time.Time).Sub":          func(m *Machine, c *frame, fn *ssa.Function, a []value) value { return mkConst(64, 0) },
 		"(time.Duration).String":   func(m *Machine, c *frame, fn *ssa.Function, a []value) value { return mkStr("0s") },
+		"(time.Time).Second":       func(m *Machine, c *frame, fn *ssa.Function, a []value) value { return mkConst(64, 0) },
+		"(time.Time).Nanosecond":   func(m *Machine, c *frame, fn *ssa.Function, a []value) value { return mkConst(64, 0) },
+		"(time.Duration).Seconds":  func(m *Machine, c *frame, fn *ssa.Function, a []value) value { return mkConst(64, 0) },
 		"(time.Time).UnixNano":     func(m *Machine, c *frame, fn *ssa.Function, a []value) value { return mkConst(64, 0) },
 		"(time.Time).Unix":         func(m *Machine, c *frame, fn *ssa.Function, a []value) value { return mkConst(64, 0) },
 		"(time.Duration).Nanoseconds": func(m *Machine, c *frame, fn *ssa.Function, a []value) value { return a[0] },
